@@ -124,8 +124,10 @@ TEXTS['C04'] = {
     'text': "Partial proof. Lean: a stage (bounded FIFO executor, k>=1 workers, tasks waiting only for earlier tasks) is never "
             "stuck while work is left (any number of tasks, capacities, workers), every event decreases a measure, permits "
             "return at quiescence; the sliding-window semaphore never loses a wake-up (C12); in the transfer model the final "
-            "task's announcement is enabled as soon as its dependencies ended. The composition of the three stages with nested "
-            "submission is not proved: the explorer runs the real manager under the deterministic scheduler (which knows who "
+            "task's announcement is enabled as soon as its dependencies ended; the CountCallbackInvoker hands the final io task "
+            "over exactly once whatever the order of finalize and the decrements; three bounded stages in a row whose tasks block "
+            "while the next stage has no permit are never stuck (pipeline_no_deadlock). The combination of same-stage "
+            "dependencies with cross-stage blocking, and termination of the whole, are not proved: the explorer runs the real manager under the deterministic scheduler (which knows who "
             "is blocked on what, so deadlock and livelock are detected exactly) over all small limit settings, faults, "
             "cancels and re-entrant subscribers. Defect D3 was found there and repaired.",
     'note': COMMON_NOTE + M2_NOTE + "OS-level starvation and blocking inside real sockets are outside the model.",
